@@ -1,5 +1,5 @@
 """Property -> rule instances (DESIGN section 4). Each entry is a function facts -> [RuleResult]."""
-from . import dim, atomic, tag
+from . import dim, atomic, tag, pair, canon, deleg
 
 ALGO_FILES = {
     "C09": ("src/algo/mod.rs",),
@@ -121,6 +121,37 @@ def tag_only(funcs):
     return rule
 
 
+def _cached(key, fn):
+    def rule(facts):
+        k = (key, facts.source)
+        if k not in _cache:
+            _cache[k] = fn(facts)
+        return _cache[k]
+    return rule
+
+
+_counters = _cached("pair.counters", pair.counters)
+_lockstep = _cached("pair.lockstep", pair.lockstep)
+_canon_gm = _cached("canon.graphmap", canon.graphmap)
+_canon_mx = _cached("canon.matrix", canon.matrix)
+_deleg = _cached("deleg", deleg.run)
+
+
+def sub(rule, pred, floor):
+    """restrict a cached whole-crate rule to the functions selected by pred(func, site)"""
+    def r(facts):
+        rr = rule(facts)
+        from .report import RuleResult
+        out = RuleResult(rr.rule, rr.clause)
+        out.instances = [i for i in rr.instances if pred(i["func"], i["site"])]
+        out.violations = [v for v in rr.violations if pred(v.func, v.site)]
+        out.notes = list(rr.notes)
+        out.floor = floor
+        out.floor_what = rr.floor_what
+        return [out]
+    return r
+
+
 STRUCT_FILES = {
     "C02": ("src/graph_impl/stable_graph/mod.rs",),
     "C04": ("src/matrix_graph.rs",),
@@ -177,6 +208,25 @@ PROPS.update({
         "not_decided": "that the forest represents the generated partition",
     },
 })
+
+PROPS["C02"]["rules"].append(sub(_counters, lambda f, s: "StableGraph" in s, 9))
+PROPS["C02"]["decides"] += "; cached counters: every occupancy change of a node/edge weight slot is paired with the node_count/edge_count update"
+PROPS["C04"]["rules"] += [sub(_counters, lambda f, s: "MatrixGraph" in s, 5), sub(_canon_mx, lambda f, s: True, 10)]
+PROPS["C04"]["decides"] += "; nb_edges updated with every cell occupancy change; every cell access indexed through to_linearized_matrix_position::<Ty>"
+PROPS["C03"]["rules"].append(sub(_canon_gm, lambda f, s: True, 7))
+PROPS["C03"]["decides"] += "; every keyed access to the edge map uses a key that flows from edge_key"
+PROPS["C05"]["rules"].append(sub(_lockstep, lambda f, s: s.startswith("Csr"), 4))
+PROPS["C05"]["decides"] += "; Csr's lock-step vectors (column/edges, row/node_weights) get the same mutating calls at the same position"
+PROPS["C19"]["rules"].append(sub(_lockstep, lambda f, s: s.startswith("UnionFind"), 1))
+PROPS["C19"]["decides"] += "; parent and rank grow in lock step"
+PROPS["C06"] = {
+    "rules": [dim_stride, sub(_deleg, lambda f, s: True, 60), sub(_canon_gm, lambda f, s: "EdgeIndexable" in f or True, 7)],
+    "decides": "adjacency bit matrices are built and queried with one row stride (node_bound for sparse-index types); no adaptor "
+               "forwards verbatim a trait method that its transformation changes (Reversed: pair/direction/adjacency/edge-reference "
+               "methods; filters: counts, enumerations, adjacency, matrix; UndirectedAdaptor: adjacency, directedness); sparse-index "
+               "types and subset adaptors have no NodeCompactIndexable / count impls; GraphMap's EdgeIndexable normalises ids with edge_key",
+    "not_decided": "that iterators enumerate the right elements; filter predicate semantics; hand-written adaptor bodies' correctness",
+}
 
 NOT_APPLICABLE = {
     "C13": "VF2 (sub)graph isomorphism is the result of a backtracking search over runtime adjacency; no clause of it is visible "
